@@ -1265,10 +1265,15 @@ fn main() {
         for l in lists(flat, 1, 3) {
             fc.push(case(vec![l], 0, compressed));
         }
+        if !quick {
+            for l in lists(&FLAT[..FLAT_QUICK], 4, 4) {
+                fc.push(case(vec![l], 0, compressed));
+            }
+        }
     }
     ck.run(
         "flat",
-        if quick { "lists of 1..3 over 24 complex selectors x 2 styles" } else { "lists of 1..3 over 36 complex selectors x 2 styles" },
+        if quick { "lists of 1..3 over 24 complex selectors x 2 styles" } else { "lists of 1..3 over 36 complex selectors + lists of 4 over 24, x 2 styles" },
         fc.into_iter(),
         judge,
     );
@@ -1293,7 +1298,7 @@ fn main() {
     let mut nc3 = Vec::new();
     {
         let (oo, mid, last): (&Vec<String>, &Vec<String>, &Vec<String>) =
-            if quick { (&o1, &i1, &i2) } else { (&o2, &i1, &i2) };
+            if quick { (&o1, &i1, &i2) } else { (&o2, &i2, &i2) };
         for o in oo {
             for m in mid {
                 for l in last {
@@ -1304,7 +1309,7 @@ fn main() {
     }
     ck.run(
         "nested3",
-        if quick { "7 outer x 17 inner x inner lists 1..2 of 17" } else { "outer lists 1..2 of 7 x 17 inner x inner lists 1..2 of 17" },
+        if quick { "7 outer x 17 inner x inner lists 1..2 of 17" } else { "outer lists 1..2 of 7 x (inner lists 1..2 of 17)^2" },
         nc3.into_iter(),
         judge,
     );
@@ -1318,12 +1323,16 @@ fn main() {
     if !quick {
         // depth 3: one more level around every depth-2 tree (single member)
         let mut n = 0;
+        let mut have: std::collections::HashSet<String> = t2.iter().cloned().collect();
         for pre in ["", "c"] {
             for f in heads {
-                // (the leaves wrapped once are already in the depth-2 set)
-                for t in &t2[leaves.len()..] {
-                    pc.push(case(vec![format!("{pre}:{f}({t})")], 0, false));
-                    n += 1;
+                for t in &t2 {
+                    // (trees of lower depth wrapped once are already in the depth-2 set)
+                    let sel = format!("{pre}:{f}({t})");
+                    if have.insert(sel.clone()) {
+                        pc.push(case(vec![sel], 0, false));
+                        n += 1;
+                    }
                 }
             }
         }
